@@ -510,6 +510,76 @@ theorem c07_fair_round {nxt : Nat → Option Nat} {s : State} {U : List Nat} {G 
     have h2 : ((s.fairRound extra).node i).head ≤ c + 1 := hclk ▸ (hG.sane.node i).headC
     omega
 
+theorem fireSteps_down (B i : Nat) (d : Node) (hu : ¬ d.up = true) : ∀ c, Node.fireSteps B i c d = (d, []) := by
+  have h1 : d.fireStep B i = (d, []) := by unfold Node.fireStep; simp [hu]
+  intro c
+  induction c with
+  | zero => rfl
+  | succ c ih => simp only [Node.fireSteps, h1, ih, List.append_nil]
+
+/-- **One catch-up sub-round of the healthy side.** Every member of `U` stores `x`, behind the clock, and has the catch-up
+goroutine launched on `x` asleep (it stored `x` through its aggregator while `x` was behind the ticked round). After the
+catch-up sub-round — the goroutines wake, each member signs `x + 1` on top of `x` — every member stores `x + 1`: one round
+per CatchupPeriod, the way the side closes the one-round gap of `c07_fair_tick` (second example below). -/
+theorem c07_catch_progress {nxt : Nat → Option Nat} {s : State} {U : List Nat} {G : Grp} {e : Nat} {ix : Nat → Nat}
+    (h : Healthy nxt s U G e ix) (x : Nat) (hx : x < clk s) (hh : ∀ i ∈ U, (s.node i).head = x)
+    (hp : ∀ i ∈ U, (s.node i).pending = [x]) : ∀ j ∈ U, x + 1 ≤ (s.fairCatch.node j).head := by
+  intro j hj
+  have hq := c07_quiet_of_healthy h x hh
+  obtain ⟨a1, a2, a3, a4, a5⟩ := foldl_act (fun B i d => Node.fireSteps B i d.pending.length d) (List.range s.n) s List.nodup_range
+  have hck : ∀ i, (s.node i).clock = clk s := fun i => (h.good.sane.node i).clk
+  have hone : ∀ i ∈ U, Node.fireSteps s.nIdx i (s.node i).pending.length (s.node i) =
+      (((s.node i).setPending []).aggregate s.nIdx (ix i) e (x + 1),
+       ((s.node i).recipients i).map (fun j => (⟨i, ix i, e, x + 1, j⟩ : Msg))) := by
+    intro i hi
+    have hv := h.vault i hi
+    have hfs : (s.node i).fireStep s.nIdx i = (((s.node i).setPending []).aggregate s.nIdx (ix i) e (x + 1),
+        ((s.node i).recipients i).map (fun j => (⟨i, ix i, e, x + 1, j⟩ : Msg))) := by
+      unfold Node.fireStep
+      simp [h.up i hi, hp i hi, Node.broadcast, Node.recipients, hv]
+    rw [hp i hi]
+    simp only [List.length_singleton, Node.fireSteps, hfs, List.append_nil]
+  have hstep : ∀ i ∈ U, Prog s.nIdx x (clk s) ⟨G, e, ix i⟩ (fun k => k = ix i)
+      (Node.fireSteps s.nIdx i (s.node i).pending.length (s.node i)).1 := by
+    intro i hi
+    rw [hone i hi]
+    exact (prog_aggregate' (S := fun _ => False) (d := (s.node i).setPending []) (V := ⟨G, e, ix i⟩) (h.up i hi) (hck i) (hh i hi)
+      (h.vault i hi) (hq.2.1 i hi) (hq.2.2 i hi) (fun _ hk => absurd hk id) (ix i)).weaken (fun k hk => Or.inr hk)
+  have hn : (s.forAll State.fireNode).nIdx = s.nIdx := a2
+  have hcn : (s.forAll State.fireNode).conn = s.conn := a3
+  have hres := settle_progress (s.forAll State.fireNode) U G e ix x (clk s) (by rw [hn]; exact h.frame)
+    (fun i hi j hj => by rw [hcn]; exact h.conn i hi j hj) h.thr hx j hj ?_ ?_ ?_
+  · exact hres
+  · rw [hn]
+    have := a4 j
+    have hlt : j ∈ List.range s.n := List.mem_range.mpr (h.lt j hj)
+    simp only [hlt, if_true] at this
+    show Prog s.nIdx x (clk s) ⟨G, e, ix j⟩ (fun k => k = ix j) (((List.range s.n).foldl State.fireNode s).node j)
+    rw [show ((List.range s.n).foldl State.fireNode s).node j = _ from this]
+    exact hstep j hj
+  · intro m hm hdst hconn
+    rw [hcn] at hconn
+    have hm' : m ∈ s.msgs ++ (List.range s.n).flatMap (fun i => (Node.fireSteps s.nIdx i (s.node i).pending.length (s.node i)).2) := by
+      rw [← a5]; exact hm
+    rcases List.mem_append.mp hm' with h1 | h1
+    · exact hq.1 m h1 (hdst ▸ hj) hconn
+    · obtain ⟨i, _, hmi⟩ := List.mem_flatMap.mp h1
+      by_cases hu : (s.node i).up = true
+      · rw [hone i (h.only i hu)] at hmi
+        obtain ⟨_, _, rfl⟩ := List.mem_map.mp hmi
+        exact Nat.le_refl _
+      · rw [fireSteps_down s.nIdx i (s.node i) hu] at hmi; cases hmi
+  · intro i hi hij
+    have : (⟨i, ix i, e, x + 1, j⟩ : Msg) ∈ s.msgs ++ (List.range s.n).flatMap (fun i => (Node.fireSteps s.nIdx i (s.node i).pending.length (s.node i)).2) := by
+      apply List.mem_append.mpr; right
+      apply List.mem_flatMap.mpr
+      refine ⟨i, List.mem_range.mpr (h.lt i hi), ?_⟩
+      rw [hone i hi]
+      apply List.mem_map.mpr
+      exact ⟨j, mem_recipients (h.vault i hi) (h.frame.member j hj) (fun hji => hij hji.symm), rfl⟩
+    rw [← a5] at this
+    exact this
+
 /-- **The chain continues across the transition.** Start: a reachable (`Sane`) state in the period before the transition
 (`c = transition − 1` in the use below; the statement holds for any `c`) in which the resharing is over for every running
 node; `U`, at least `G.thr` members of the NEW group, run, are pairwise connected and hold the new vault (told at any time
@@ -772,6 +842,54 @@ theorem exS_healthy : Healthy cxNxt (exS 3) [0, 1, 2, 4] (exN4 3) 1 exIx4 := by
     | 4 => exact ⟨0, by decide, by decide⟩
     | k + 5 => exact ⟨0, by decide, by rw [(exS_frozen k).2]; exact Nat.zero_le _⟩
 
+/-- the same with threshold 4 in the new group: the joiner is needed -/
+theorem exS4_sane : Sane cxNxt (exS 4) := by
+  apply sane_run (exEvs 4) exI (sane_init _ _ _ _ _)
+  refine ⟨fun _ => by decide, fun _ => by decide, fun _ => by decide, trivial, trivial,
+    fun _ => (cx_inlife _ _).mpr (by decide), fun _ => (cx_inlife _ _).mpr (by decide), fun _ => (cx_inlife _ _).mpr (by decide),
+    fun _ => (cx_inlife _ _).mpr (by decide), fun _ => (cx_inlife _ _).mpr (by decide),
+    trivial, trivial, trivial, trivial, trivial, trivial, trivial, trivial, trivial, trivial, trivial, trivial, trivial⟩
+
+theorem exS4_frozen (k : Nat) : ((exS 4).node (k + 5)).up = false ∧ ((exS 4).node (k + 5)).head = 0 := by
+  have hq : ∀ ev ∈ exEvs 4, ev.quietFor (k + 5) := by
+    intro ev hev
+    simp only [exEvs, List.mem_cons, List.not_mem_nil, or_false] at hev
+    rcases hev with h | h | h | h | h | h | h | h | h | h | h | h | h | h | h | h | h | h | h | h | h | h <;> subst h <;>
+      first | trivial | (show _ ≠ _; omega)
+  have h0 : (exI.node (k + 5)).up = false ∧ (exI.node (k + 5)).head = 0 := by
+    have : exO.members.find? (fun m => m.node == k + 5) = none := by
+      simp [exO]
+    simp [exI, State.init, this]
+  have := frozen_run (k + 5) (exEvs 4) exI h0.1 hq
+  exact ⟨this.1, this.2.trans h0.2⟩
+
+theorem exS4_healthy : Healthy cxNxt (exS 4) [0, 1, 2, 4] (exN4 4) 1 exIx4 := by
+  refine ⟨⟨exS4_sane, ?_⟩, ⟨by decide, by decide, by decide, by decide⟩, by decide, by decide, by decide, ?_, by decide, by decide, ?_⟩
+  · intro k
+    match k with
+    | 0 => decide
+    | 1 => decide
+    | 2 => decide
+    | 3 => decide
+    | 4 => decide
+    | k + 5 => intro hu; rw [(exS4_frozen k).1] at hu; cases hu
+  · intro k
+    match k with
+    | 0 => intro _; decide
+    | 1 => intro _; decide
+    | 2 => intro _; decide
+    | 3 => intro hu; exact absurd hu (by decide)
+    | 4 => intro _; decide
+    | k + 5 => intro hu; rw [(exS4_frozen k).1] at hu; cases hu
+  · intro k
+    match k with
+    | 0 => exact ⟨0, by decide, by decide⟩
+    | 1 => exact ⟨0, by decide, by decide⟩
+    | 2 => exact ⟨0, by decide, by decide⟩
+    | 3 => exact ⟨0, by decide, by decide⟩
+    | 4 => exact ⟨0, by decide, by decide⟩
+    | k + 5 => exact ⟨0, by decide, by rw [(exS4_frozen k).2]; exact Nat.zero_le _⟩
+
 /-- `c07_chain_continues` applies: whatever the fair schedule, after `k` periods every member of the new group — the joiner
 included — stores at least round `k` and at most round `k + 1`, the clocks showing `k + 1` -/
 example (sch : List Nat) : ∀ i ∈ [0, 1, 2, 4], 1 + sch.length ≤ (((exS 3).fairRounds sch).node i).head + 1 ∧
@@ -800,5 +918,13 @@ example : ((List.range 5).map fun k => (((exS 4).fairRounds [1]).node k).head) =
 example : 1 ≤ ((exS 3).fairTick.node 4).head :=
   c07_level (exS 3) 4 0 1 2 (by decide) (by decide) (by decide) (by decide) (by decide) (by decide) (by decide) (by decide)
     (by decide) (by decide) (by decide)
+
+/-- the catch-up sub-round: threshold 4, period of round 4 (clocks at 4). After the tick sub-round every member stores
+round 3 — one behind — and has the catch-up goroutine launched on 3 asleep; `c07_catch_progress`: after the catch-up
+sub-round every member stores round 4. -/
+example : ∀ j ∈ [0, 1, 2, 4], 3 + 1 ≤ ((((exS 4).fairRounds [1, 1]).fairTick).fairCatch.node j).head := by
+  have h1 := (c07_chain_continues [1, 1] (exS 4) 1 exS4_healthy (by decide) (by decide))
+  have h2 := c07_fair_tick h1.1 3 h1.2.1 (fun i hi => by have := (h1.2.2.1 i hi).1; simpa using this)
+  exact c07_catch_progress h2.1 3 (by rw [h2.2.1]; decide) (by decide) (by decide)
 
 end Drand.Net.Reshare
